@@ -49,6 +49,10 @@ type Config struct {
 
 	// gasLimit for interpreter run
 	EVMGasLimit uint64
+
+	// NoAdminOp disables the governance precompile (set for read-only queries,
+	// whose side effects would otherwise change the validator set of this node only).
+	NoAdminOp bool
 }
 
 // Interpreter is used to run Ethereum based contracts and will utilise the
